@@ -11,4 +11,5 @@ INVARIANT StoreCovers
 INVARIANT GenUnique
 INVARIANT StoreIsLive
 INVARIANT Export
+PROPERTY RestartInvisible
 CHECK_DEADLOCK FALSE
